@@ -2167,6 +2167,9 @@ class Norm:
             return None
         text, slots = [], []
         for (node, kind, _g), r in zip(effs, rel):
+            cond_guard = None
+            if len(r) == 1 and (r[0][0] == "if" or (r[0][0] == "arm" and r[0][2] in ("v1::Some($)", "Option::Some($)"))):
+                cond_guard, r = r[0], ()         # an append made only under a condition: an optional piece
             if len(r) > 1 or (r and (r[0][0] != "for" or _has_loop_exit(r[0][2]))):
                 return None
             piece = None
@@ -2181,7 +2184,29 @@ class Norm:
                     piece = self._t(node["recv"])
             if piece is None:
                 return None
-            if r:
+            if cond_guard is not None:
+                if piece[0] != "tpl" or piece[1] != "quote":
+                    piece = ("tpl", "quote", "#0", [piece])
+                c = self._cond_value(self._t(cond_guard[1])) if cond_guard[0] == "if" else None
+                if c is not None and not (c[0] == "iflet" and c[1] in ("v1::Some($)", "Option::Some($)") and cond_guard[2]):
+                    slots.append(_mk_then(c if cond_guard[2] else _not(c), piece))
+                else:
+                    # if let Some(m) = o { ts.extend(quote!(.. #m ..)) }:  the optional piece  o.map(|m| quote!(.. #m ..))
+                    o = c[2] if c is not None else self._t(cond_guard[1])
+                    d = depth + 1
+                    pay = _proj_some(o)
+
+                    def sub(n, d=d, pay=pay):
+                        if n == pay:
+                            return ("cparam", d, 0)
+                        if n[0] == "cparam" and n[1] >= d:
+                            return ("cparam", n[1] + 1, n[2])
+                        if n[0] == "closure" and n[1] >= d:
+                            return ("closure", n[1] + 1, n[2], n[3])
+                        return None
+                    slots.append(("call", "Option::map", [o, ("closure", d, 1, rewrite(piece, sub))]))
+                text.append("#%d" % (len(slots) - 1))
+            elif r:
                 it = self._t(r[0][1])
                 d = depth + 1
                 slots.append(("call", "Iterator::map", [it, ("closure", d, 1, rewrite(piece, _elem_to_param(it, d)))]))
